@@ -51,6 +51,7 @@ type sys struct {
 	workDir string
 	cur     *coreInst
 	nInc    int
+	reuse   bool // reuseUnlockedTasks
 }
 
 // writeRepo creates the local workflow repository (a git repository, as the repo manager wants).
@@ -128,6 +129,7 @@ func (s *sys) bootCore() *coreInst {
 	viper.Set("metrics.path", fmt.Sprintf("/metrics%d", s.nInc))
 	viper.Set("metrics.address", "127.0.0.1")
 	viper.Set("mesosLabels", schedutil.Labels{})
+	viper.Set("reuseUnlockedTasks", s.reuse)
 	viper.Set("executor", "/bin/true")
 	viper.Set("executorCPU", 0.01)
 	viper.Set("executorMemory", 8.0)
@@ -223,6 +225,10 @@ func (probePlugin) CallStack(data interface{}) map[string]interface{} {
 	return map[string]interface{}{
 		"Probe": func() string {
 			simrt.Count("probe.plugin_call")
+			return ""
+		},
+		"Slow": func() string { // a call that takes a while (simulated time)
+			simrt.Sleep(150 * time.Millisecond)
 			return ""
 		},
 	}
